@@ -9,7 +9,7 @@ CONSTANTS
   TimeoutTicks = 2
   MaxTicks = 3
   Weaken = "none"
-INVARIANTS ObsFidelity ObsNoSilentCorruption ObsCleanRunSucceeds ObsShown ObsNoHang
+INVARIANTS ObsFidelity ObsNoSilentCorruption ObsClaimsAll ObsCleanRunSucceeds ObsShown ObsNoHang
 CONSTRAINT HW
 POSTCONDITION Accepted
 CHECK_DEADLOCK FALSE
